@@ -92,7 +92,7 @@ class Termination(explore.Scenario):
                 def closer():
                     import bromelia.exceptions as X
                     n.tm.sleep(0.6)
-                    for _attempt in range(8):
+                    for _attempt in range(30):
                         try:
                             d.close()
                             return
